@@ -7,6 +7,12 @@ MC_MODELS = {
     "MC_Header": {"tla": "MC_Header.tla", "cfg": "MC_Header.cfg", "workers": 4, "timeout": 300},
     "MC_Labels": {"tla": "MC_Labels.tla", "cfg": "MC_Labels.cfg", "workers": 6, "timeout": 300},
     "MC_Memory": {"tla": "MC_Memory.tla", "cfg": "MC_Memory.cfg", "thorough_cfg": "MC_Memory_thorough.cfg", "workers": 8, "timeout": 1500},
+    "MC_Frag": {"tla": "MC_Frag.tla", "cfg": "MC_Frag.cfg", "thorough_cfg": "MC_Frag_thorough.cfg", "workers": 8, "timeout": 2400},
+    "MC_FragReal": {"tla": "MC_Frag.tla", "cfg": "MC_Frag_real_quick.cfg", "thorough_cfg": "MC_Frag_real.cfg", "workers": 8, "timeout": 900},
+    "MC_FragLive": {"tla": "MC_Frag.tla", "cfg": "MC_Frag_live.cfg", "workers": 8, "timeout": 900, "thorough_only": True},
+    "MC_Rx": {"tla": "MC_Rx.tla", "cfg": "MC_Rx.cfg", "thorough_cfg": "MC_Rx_thorough.cfg", "workers": 8, "timeout": 2400},
+    "MC_Wire": {"tla": "MC_Wire.tla", "cfg": "MC_Wire.cfg", "workers": 6, "timeout": 600},
+    "MC_Crc": {"tla": "MC_Crc.tla", "cfg": "MC_Crc.cfg", "thorough_cfg": "MC_Crc_thorough.cfg", "workers": 6, "timeout": 1200},
 }
 
 # S->I scenario generators: TLC enumerates behaviours, the harness replays them on the real code
@@ -15,24 +21,24 @@ GENERATORS = {
 }
 
 PLAN = {
-    "C01": {"mc": [], "drivers": [D("lattice"), D("chains")]},
-    "C02": {"mc": [], "drivers": [D("chains"), D("lattice")]},
-    "C03": {"mc": [], "drivers": [D("faults"), D("chains")]},
+    "C01": {"mc": ["MC_Frag", "MC_FragReal"], "drivers": [D("lattice"), D("chains")]},
+    "C02": {"mc": ["MC_Frag", "MC_FragReal", "MC_FragLive", "MC_Rx"], "drivers": [D("chains"), D("lattice")]},
+    "C03": {"mc": ["MC_Rx", "MC_Crc"], "drivers": [D("faults"), D("chains")]},
     "C04": {"mc": ["MC_Labels"], "drivers": [D("labels"), D("chains")]},
-    "C05": {"mc": [], "drivers": [D("fuzzrx"), D("faults")]},
-    "C06": {"mc": [], "drivers": [D("lattice"), D("chains"), D("ext")]},
-    "C07": {"mc": [], "drivers": [D("interleave"), D("frames")]},
-    "C08": {"mc": [], "drivers": [D("fuzzrx"), D("faults"), D("interleave"), D("labels")]},
-    "C09": {"mc": ["MC_Labels"], "drivers": [D("lattice"), D("labels"), D("ext")]},
-    "C10": {"mc": [], "drivers": [D("frames"), D("chains"), D("ext")]},
-    "C11": {"mc": [], "drivers": [D("lattice"), D("chains")]},
-    "C12": {"mc": [], "drivers": [D("crc"), D("chains"), D("lattice")]},
-    "C13": {"mc": [], "drivers": [D("extnew"), D("ext")]},
+    "C05": {"mc": ["MC_Wire", "MC_Rx"], "drivers": [D("fuzzrx"), D("faults")]},
+    "C06": {"mc": ["MC_Frag", "MC_FragReal", "MC_Wire"], "drivers": [D("lattice"), D("chains"), D("ext")]},
+    "C07": {"mc": ["MC_Rx"], "drivers": [D("interleave"), D("frames")]},
+    "C08": {"mc": ["MC_Rx", "MC_Memory"], "drivers": [D("fuzzrx"), D("faults"), D("interleave"), D("labels")]},
+    "C09": {"mc": ["MC_Labels", "MC_Frag"], "drivers": [D("lattice"), D("labels"), D("ext")]},
+    "C10": {"mc": ["MC_Wire", "MC_Rx"], "drivers": [D("frames"), D("chains"), D("ext")]},
+    "C11": {"mc": ["MC_Frag", "MC_FragReal", "MC_FragLive"], "drivers": [D("lattice"), D("chains")]},
+    "C12": {"mc": ["MC_Crc"], "drivers": [D("crc"), D("chains"), D("lattice")]},
+    "C13": {"mc": ["MC_Wire"], "drivers": [D("extnew"), D("ext")]},
     "C14": {"mc": ["MC_Header"], "drivers": [D("hdr")], "exhaustive": True},
     "C15": {"mc": ["MC_Labels"], "drivers": [D("labels"), D("lattice")]},
-    "C16": {"mc": [], "drivers": [D("fuzzrx"), D("faults")]},
+    "C16": {"mc": ["MC_Rx"], "drivers": [D("fuzzrx"), D("faults")]},
     "C17": {"mc": ["MC_Memory"], "drivers": [D("memops"), D("memops", "--scn", "@gen:Gen_Memory")]},
-    "C18": {"mc": [], "drivers": [D("lattice")]},
-    "C19": {"mc": [], "drivers": [D("chains"), D("frames"), D("ext")]},
-    "C20": {"mc": [], "drivers": [D("utils")]},
+    "C18": {"mc": ["MC_Frag"], "drivers": [D("lattice")]},
+    "C19": {"mc": ["MC_Wire"], "drivers": [D("chains"), D("frames"), D("ext")]},
+    "C20": {"mc": ["MC_Wire"], "drivers": [D("utils")]},
 }
